@@ -581,6 +581,11 @@ class Walker:
             la = self.t.lists[self.env[v.func.value.id][1]]
             la.items.append((self.ex(v.args[0]), self.gen, st.lineno))
             return
+        if isinstance(v, ast.Call) and self.m is not None and isinstance(v.func, ast.Attribute) and isinstance(v.func.value, ast.Name) and \
+                v.func.attr in ("append", "extend", "insert", "update", "add", "pop", "remove", "clear", "setdefault", "sort", "reverse") and \
+                self.env.get(v.func.value.id, ('x',))[0] in ('list', 'dict', 'set', 'tuple', 'gen'):
+            self.unsupported(st, f"in-place update of the local container `{v.func.value.id}` (its later reads are not modelled)")
+            return
         if isinstance(v, ast.Call):
             f = v.func
             # connect(m, a, b)
@@ -791,7 +796,32 @@ class Walker:
             self.t.lists[lid] = ListAcc(lid, t.id, self.gen)
             self.bind(t.id, ('listacc', lid))
             return
+        # xs = [a, b] that is appended to later: the same list, with its first elements appended where it is created
+        if isinstance(t, ast.Name) and isinstance(st.value, ast.List) and st.value.elts and self.m is not None and \
+                not any(isinstance(e, ast.Starred) for e in st.value.elts) and \
+                any(isinstance(n, ast.Call) and isinstance(n.func, ast.Attribute) and n.func.attr == "append" and
+                    isinstance(n.func.value, ast.Name) and n.func.value.id == t.id for n in ast.walk(self.fi.node)) and \
+                sum(1 for n in ast.walk(self.fi.node) if isinstance(n, ast.Name) and n.id == t.id and isinstance(n.ctx, ast.Store)) == 1:
+            lid = self.fresh()
+            la = ListAcc(lid, t.id, self.gen)
+            self.t.lists[lid] = la
+            for e in st.value.elts:
+                la.items.append((self.ex(e), self.gen, st.lineno))
+            self.bind(t.id, ('listacc', lid))
+            return
+        # a, b, c = [], [], []
+        if isinstance(t, (ast.Tuple, ast.List)) and isinstance(st.value, (ast.Tuple, ast.List)) and len(t.elts) == len(st.value.elts) and \
+                t.elts and all(isinstance(x, ast.Name) for x in t.elts) and all(isinstance(v_, ast.List) and not v_.elts for v_ in st.value.elts):
+            for x in t.elts:
+                lid = self.fresh()
+                self.t.lists[lid] = ListAcc(lid, x.id, self.gen)
+                self.bind(x.id, ('listacc', lid))
+            return
         v = self.ex(st.value)
+        # a call whose result is only bound to names (a, b = obj.method(...)): remembered, so that rules that look for the
+        # call find it even when the names are never used again
+        if isinstance(st.value, ast.Call) and isinstance(st.value.func, ast.Attribute) and v[0] == 'call' and self.m is None:
+            self.t.calls.append((('assigned', v), self.gen, self.dsl, st.lineno))
         self.assign_target(t, v, st)
 
     def reduce_or(self, node, st):
